@@ -3282,6 +3282,10 @@ generalized_affine_preimage(const Variable var,
 
   // Here `var_coefficient == 0', so that the preimage cannot
   // be easily computed by inverting the affine relation.
+  // Any preimage of an empty polyhedron is empty.
+  if (marked_empty()) {
+    return;
+  }
   // Shrink the polyhedron by adding the constraint induced
   // by the affine relation.
   const Relation_Symbol corrected_relsym
